@@ -345,6 +345,13 @@ def run(ctx):
                         ops.append({"op": "decide", "device": 0, "user": dec[0], "approve": dec[1]})
                     ops += [{"op": "tick", "dt": dt}, {"op": "poll", "device": 0, "cred": pcred}, {"op": "poll", "device": 0, "cred": dcred}]
                     check_seq(ctx, ops, True, "golden-device")
+    # verifier and recorded challenge of different lengths, one a prefix of the other (plain and S256): equality, not a common prefix
+    long_v = "p" * 128
+    for ch, mt, vf in ((long_v, "plain", long_v[:43]), (long_v, "plain", long_v[:100]), (long_v[:43], "plain", long_v[:50]), (long_v[:43], None, long_v),
+                       (s256(V1) + "AAAA", "S256", V1), (s256(V1)[:-1], "S256", V1), (s256(V1)[:20], "S256", V1), (V1, "plain", V1 + "v"), (V1 + "v", "plain", V1)):
+        for cid, cred in (("c1", ["basic", "c1", "s1"]), ("pub", ["none", "pub"])):
+            a = {"op": "authorize", "client": cid, "redirect": None, "scope": "a", "challenge": ch, "method": mt, "approve": "alice"}
+            check_seq(ctx, [a, {"op": "redeem", "code": 0, "cred": cred, "redirect": None, "verifier": vf}], True, "golden-pkce-prefix")
     # parameters that do not belong to the request: a token request for a code or a device code has no scope of its own
     for extra in ({"scope": "a b"}, {"scope": "b"}, {"scope": ""}, {"scope": "a b zzz"}, {"user": "mallory", "username": "mallory"}, {"client_id": "c2"}):
         ops = [{"op": "device_authorize", "cred": ["basic", "c1", "s1"], "client_param": "c1", "scope": "a"},
